@@ -144,6 +144,13 @@ def callHandler (h : Nat) (rule : Bool → Bool) (body : List Act) (k : KSt) : K
 /-- `KeyProcessor.reset()` -/
 def kpReset (k : KSt) : KSt := { k with prev := none }
 
+/-- `KeyProcessor._process_cpr_response`: a cursor position report (`ESC [ row ; col R`, key
+    `Keys.CPRResponse`) that arrives at any key boundary is answered by calling its handler
+    directly (`is_repeat=False`, the handler only talks to the renderer): no `save_before`, no
+    `_call_handler`, `_previous_handler` / `_previous_key_sequence` / `arg` are left alone.
+    For the undo machinery it is the identity. -/
+def cprResponse (k : KSt) : KSt := k
+
 /-! ### the shipped emacs bindings, fully modelled (a small key set)
 
     basic.py / emacs.py / named_commands.py:
